@@ -121,6 +121,15 @@ pub fn restrict_to_version(f: &Facts, v: u8) -> Facts {
 /// are and must fit their length field (term/gene names <= 255 bytes).
 /// Duplicate edges are merged per term (the format lists the parents per term).
 pub fn encode(f: &Facts, v: u8) -> Vec<u8> {
+    encode_styled(f, v, 0)
+}
+
+/// Layout choices the format leaves to the writer (`style % 4`): 0 one parent record per term in
+/// supply order, parentless terms as records with n = 0 (what `as_bytes` writes); 1 no record for
+/// parentless terms; 2 parent records and each record's term list in reverse order; 3 one parent
+/// record per is_a link (a term with two parents has two records), in link supply order.
+pub fn encode_styled(f: &Facts, v: u8, style: u8) -> Vec<u8> {
+    let style = style % 4;
     let mut out = Vec::new();
     if v >= 2 {
         out.extend_from_slice(b"HPO");
@@ -147,17 +156,45 @@ pub fn encode(f: &Facts, v: u8) -> Vec<u8> {
     section(&mut out, &buf);
     // parents: one record per term in supply order, parents in order of first mention
     buf.clear();
-    for t in &f.terms {
-        let mut ps: Vec<u32> = Vec::new();
+    if style == 3 {
+        let mut seen: std::collections::HashSet<(u32, u32)> = std::collections::HashSet::new();
         for (c, p) in &f.edges {
-            if *c == t.id && !ps.contains(p) {
-                ps.push(*p);
+            if seen.insert((*c, *p)) {
+                buf.extend_from_slice(&be(1));
+                buf.extend_from_slice(&be(*c));
+                buf.extend_from_slice(&be(*p));
             }
         }
-        buf.extend_from_slice(&be(ps.len() as u32));
-        buf.extend_from_slice(&be(t.id));
-        for p in ps {
-            buf.extend_from_slice(&be(p));
+    } else {
+        let by_child = {
+            let mut m: std::collections::HashMap<u32, Vec<u32>> = std::collections::HashMap::new();
+            for (c, p) in &f.edges {
+                let e = m.entry(*c).or_default();
+                if !e.contains(p) {
+                    e.push(*p);
+                }
+            }
+            m
+        };
+        let mut written: std::collections::HashSet<u32> = std::collections::HashSet::new();
+        let order: Vec<&TermFact> = if style == 2 { f.terms.iter().rev().collect() } else { f.terms.iter().collect() };
+        for t in order {
+            // (duplicate term definitions: one record for the id)
+            if !written.insert(t.id) {
+                continue;
+            }
+            let mut ps: Vec<u32> = by_child.get(&t.id).cloned().unwrap_or_default();
+            if style == 2 {
+                ps.reverse();
+            }
+            if ps.is_empty() && style == 1 {
+                continue;
+            }
+            buf.extend_from_slice(&be(ps.len() as u32));
+            buf.extend_from_slice(&be(t.id));
+            for p in ps {
+                buf.extend_from_slice(&be(p));
+            }
         }
     }
     section(&mut out, &buf);
@@ -172,8 +209,14 @@ pub fn encode(f: &Facts, v: u8) -> Vec<u8> {
         buf.push(name.len() as u8);
         buf.extend_from_slice(name);
         buf.extend_from_slice(&be(r.terms.len() as u32));
-        for t in &r.terms {
-            buf.extend_from_slice(&be(*t));
+        if style == 2 {
+            for t in r.terms.iter().rev() {
+                buf.extend_from_slice(&be(*t));
+            }
+        } else {
+            for t in &r.terms {
+                buf.extend_from_slice(&be(*t));
+            }
         }
     }
     section(&mut out, &buf);
@@ -188,8 +231,14 @@ pub fn encode(f: &Facts, v: u8) -> Vec<u8> {
             buf.extend_from_slice(&be(name.len() as u32));
             buf.extend_from_slice(name);
             buf.extend_from_slice(&be(r.terms.len() as u32));
-            for t in &r.terms {
-                buf.extend_from_slice(&be(*t));
+            if style == 2 {
+                for t in r.terms.iter().rev() {
+                    buf.extend_from_slice(&be(*t));
+                }
+            } else {
+                for t in &r.terms {
+                    buf.extend_from_slice(&be(*t));
+                }
             }
         }
         section(&mut out, &buf);
@@ -232,7 +281,9 @@ pub fn decode(bytes: &[u8]) -> Decoded {
 }
 
 pub fn via_binary(f: &Facts, v: u8) -> Result<Ontology, String> {
-    match decode(&encode(f, v)) {
+    // the writer style follows from the facts (deterministic, all four styles occur)
+    let style = (f.terms.len() + 3 * f.edges.len() + f.recs[GENE].len()) % 4;
+    match decode(&encode_styled(f, v, style as u8)) {
         Decoded::Ok(o) => Ok(*o),
         Decoded::Err(e) => Err(format!("from_bytes(v{v}) error: {e}")),
         Decoded::Panic(p) => Err(format!("PANIC in from_bytes(v{v}): {p}")),
